@@ -91,4 +91,10 @@ CHECKS["C10"] = {
   "note": "exact reals; verified-frame SVD; scorers stubbed by formula and calling convention; scores named as atoms and unfolded for equality; two repaired defects (scorer argument order, rank count of the final solve)",
   "technique": TECH,
 }
+CHECKS["C18"] = {
+  "text": "OrthogonalRegression.fit/predict are executed on the factor family (X = U diag(s) Vx^T, y = U diag(t) Vy^T + remainder) for features <, =, > targets and both modes: coef_ orthogonal (padded) / partial isometry (projector), predict pads consistently, |prediction| <= |input| through a certificate identity |x|^2 - |xA|^2 == |x(I - AA^T)|^2 decided by normal form, y = XQ recovers Q with zero residual, and the training residual is <= that of every library frame of the padded size and of a rotation of the fitted map by a symbolic angle.",
+  "design_ref": "DESIGN.md 2/C18",
+  "note": "exact reals; svd by verified frames (null vectors completed by Gram-Schmidt), orthogonal_procrustes by its definition, LinearRegression by normal equations; optimality only against the stated competitor families",
+  "technique": TECH,
+}
 NOT_APPLICABLE = {}
